@@ -296,19 +296,34 @@ def forms(S, uses):
 
 
 # ---- alignment -----------------------------------------------------------------------------------------------
-class PairMap:
-    """line / token correspondence between two forms that differ in one expansion."""
+def mark_pairing(ta, tb):
+    """line pairing of two forms of the placeholder grammar: head lines 1:1, lines after the marker by offset."""
+    la, lb = ta.split("\n"), tb.split("\n")
+    ma, mb = la.index(MARK) + 1, lb.index(MARK) + 1     # 1-based line of the marker
+    assert len(la) - ma == len(lb) - mb
+    return [(l, l) for l in range(1, len(HEAD) + 1)] + [(ma + k + 1, mb + k + 1) for k in range(len(la) - ma)]
 
-    def __init__(self, ta, tb):
+
+class PairMap:
+    """line / token correspondence between two forms that differ in one expansion.
+    pairing: list of (lineA, lineB) of corresponding lines (1-based); lines that are not paired are the declaration
+    region of the expanded entity.  The first `head` pairs are common code above the declaration."""
+
+    def __init__(self, ta, tb, pairing=None, head=None):
         la, lb = ta.split("\n"), tb.split("\n")
-        ma, mb = la.index(MARK) + 1, lb.index(MARK) + 1     # 1-based line of the marker
-        self.ma, self.mb = ma, mb
-        self.nhead = len(HEAD)
-        assert len(la) - ma == len(lb) - mb
+        if pairing is None:
+            pairing, head = mark_pairing(ta, tb), len(HEAD)
+        self.pairing = [tuple(x) for x in pairing]
+        self.nhead = head or 0
+        self.a2b = dict(self.pairing)
+        self.ia = {x[0]: i for i, x in enumerate(self.pairing)}       # canonical line index
+        self.ib = {x[1]: i for i, x in enumerate(self.pairing)}
+        self.heada = set(x[0] for x in self.pairing[:self.nhead])
+        self.headb = set(x[1] for x in self.pairing[:self.nhead])
         self.tok = {}        # (lineA, colA) -> (lineB, colB) for aligned tokens
         self.mid = {}        # lineA -> ((colA0, colA1), (colB0, colB1)) changed region (half-open), if any
-        for k in range(0, len(la) - ma):
-            a, b = la[ma + k], lb[mb + k]
+        for L1, L2 in self.pairing:
+            a, b = la[L1 - 1], lb[L2 - 1]
             xa, xb = rwm.code(rwm.lex(a)), rwm.code(rwm.lex(b))
             n = 0
             while n < len(xa) and n < len(xb) and xa[n].text == xb[n].text:
@@ -316,7 +331,12 @@ class PairMap:
             m = 0
             while m < len(xa) - n and m < len(xb) - n and xa[-1 - m].text == xb[-1 - m].text:
                 m += 1
-            L1, L2 = ma + k + 1, mb + k + 1
+            if n + m < len(xa) or n + m < len(xb):
+                # cv-qualifiers next to the rewritten type merge with it ('const T1' <-> 'const unsigned char')
+                while n > 0 and xa[n - 1].text in ("const", "volatile"):
+                    n -= 1
+                while m > 0 and xa[len(xa) - m].text in ("const", "volatile"):
+                    m -= 1
             for t1, t2 in list(zip(xa[:n], xb[:n])) + (list(zip(xa[len(xa) - m:], xb[len(xb) - m:])) if m else []):
                 self.tok[(L1, t1.col)] = (L2, t2.col)
             mida, midb = xa[n:len(xa) - m], xb[n:len(xb) - m]
@@ -326,20 +346,21 @@ class PairMap:
                 self.mid[L1] = (ca, cb)
                 if len(mida) == 1 and len(midb) == 1 and mida[0].kind in ("id", "num") and midb[0].kind in ("id", "num"):
                     self.tok[(L1, mida[0].col)] = (L2, midb[0].col)     # K1 <-> 3
-        for l in range(1, self.nhead + 1):
-            for t in rwm.code(rwm.lex(la[l - 1])):
-                self.tok[(l, t.col)] = (l, t.col)
 
     def region_a(self, line):
-        return "head" if line <= self.nhead else "decl" if line <= self.ma else "use"
+        return "head" if line in self.heada else "use" if line in self.ia else "decl"
 
     def region_b(self, line):
-        return "head" if line <= self.nhead else "decl" if line <= self.mb else "use"
+        return "head" if line in self.headb else "use" if line in self.ib else "decl"
+
+    def rel_a(self, line):
+        return self.ia.get(line, -1)
+
+    def rel_b(self, line):
+        return self.ib.get(line, -1)
 
     def line_a2b(self, line):
-        if line <= self.nhead:
-            return line
-        return line - self.ma + self.mb
+        return self.a2b.get(line)
 
     def loc(self, line, col):
         """location of form A -> ('exact', (l, c)) | ('mid', (l, c0, c1)) | None"""
@@ -365,14 +386,24 @@ SPELL = {"schar": ["signedchar", "signed char", "char"], "uchar": ["unsignedchar
          "int": ["int"], "long": ["long"], "ptr": ["int*", "int *"], "arr": ["int[3]"], "struct": ["structRec", "struct Rec", "Rec"]}
 
 
+RE_CV = re.compile(r"\bconst\b\s*")
+
+
 def text_eq(a, b, spell):
     """texts of the unexpanded / expanded form are equal; where the unexpanded one quotes the typedef name the
     expanded one must quote a spelling of the type."""
     if a == b:
         return True
-    if not spell or "T1" not in a:
+    if not spell:
         return False
-    alt = "(?:" + "|".join(re.escape(x) for x in SPELL[spell]) + ")"
+    if not isinstance(spell, str):      # alias grammar: a use may repeat the alias's own cv-qualifier ('const T1')
+        a, b = RE_CV.sub("", a), RE_CV.sub("", b)
+        spell = sorted(set(RE_CV.sub("", x) for x in spell), key=lambda x: (-len(x), x))
+        if a == b:
+            return True
+    if "T1" not in a:
+        return False
+    alt = "(?:" + "|".join(re.escape(x) for x in (SPELL[spell] if isinstance(spell, str) else spell)) + ")"
     rx = alt.join(re.escape(p) for p in re.split(r"\bT1\b", a))
     return re.fullmatch(rx, b) is not None
 
@@ -391,8 +422,8 @@ def compare_findings(fa, fb, pm, spell=None, skip=()):
                         canon_msg(f["verbose"], rel),
                         tuple((l[1], l[2], canon_msg(l[3], rel)) for l in f["locs"])))
         return out
-    A = prep(fa, pm.region_a, lambda l: l if l <= pm.nhead else l - pm.ma)
-    B = prep(fb, pm.region_b, lambda l: l if l <= pm.nhead else l - pm.mb)
+    A = prep(fa, pm.region_a, pm.rel_a)
+    B = prep(fb, pm.region_b, pm.rel_b)
     rest = list(B)
     diffs = []
     for f in A:
@@ -513,8 +544,8 @@ def compare_facts(da, db, pm):
     """-> (number of aligned tokens with facts, list of differences)"""
     if da is None or db is None:
         return 0, [("dump-unparsable", "-", {})]
-    FA = facts_of(da[0], da[1], da[2], lambda l: l if l <= pm.nhead else l - pm.ma, pm.region_a)
-    FB = facts_of(db[0], db[1], db[2], lambda l: l if l <= pm.nhead else l - pm.mb, pm.region_b)
+    FA = facts_of(da[0], da[1], da[2], pm.rel_a, pm.region_a)
+    FB = facts_of(db[0], db[1], db[2], pm.rel_b, pm.region_b)
     n, diffs = 0, []
     for pa, pb in sorted(pm.tok.items()):
         if pm.region_a(pa[0]) != "use":
@@ -682,6 +713,242 @@ def work(job):
     return out
 
 
+# ==== second grammar: ONE alias (at file / namespace / class / function scope), SEVERAL uses in sequence ============
+ALIAS_TYPES = collections.OrderedDict([      # name -> (base spelling, alias is const, kind)
+    ("uchar", ("unsigned char", False, "base")), ("int", ("int", False, "base")),
+    ("cuchar", ("unsigned char", True, "base")), ("cint", ("int", True, "base")),
+    ("ptrc", ("const int *", False, "ptr")),     # pointer to const
+    ("cptr", ("int * const", True, "ptr")),      # const pointer
+])
+PLACEMENTS = ["file", "namespace", "class", "function"]
+QUALS = ["plain", "pre", "post"]            # T1 / const T1 / T1 const
+ROLES = {"base": ["ptrparam", "ptrlocal", "local", "cast", "sizeof"], "ptr": ["param", "local", "cast", "sizeof"]}
+
+
+def alias_decl(how, t):
+    base, c, kind = ALIAS_TYPES[t]
+    sp = base if kind == "ptr" else ("const " if c else "") + base
+    return "typedef %s T1;" % sp if how == "typedef" else "using T1 = %s;" % sp
+
+
+def alias_use(t, qual, expanded):
+    """spelling of one use of the alias; the expanded form writes the underlying type with a single const"""
+    if not expanded:
+        return {"plain": "T1", "pre": "const T1", "post": "T1 const"}[qual]
+    base, c, kind = ALIAS_TYPES[t]
+    if kind == "base":
+        return ("const " if (c or qual != "plain") else "") + base
+    if t == "ptrc":
+        return base + (" const" if qual != "plain" else "")
+    return base
+
+
+def alias_role(t, role, qt, i):
+    """-> (parameter list, statements, result expression) of use i"""
+    base, c, kind = ALIAS_TYPES[t]
+    A = "int a%d[4] = {0};" % i
+    if kind == "base":
+        return {
+            "ptrparam": ("%s *p%d" % (qt, i), [], "p%d[1]" % i),
+            "ptrlocal": ("void", ["%s b%d[2] = {1, 2};" % (base, i), "%s *q%d = b%d;" % (qt, i, i)], "q%d[1]" % i),
+            "local": ("void", [A, "%s x%d = 4;" % (qt, i)], "a%d[x%d]" % (i, i)),
+            "cast": ("void", [A, "int y%d = (%s)300;" % (i, qt)], "a%d[y%d]" % (i, i)),
+            "sizeof": ("void", [A], "a%d[sizeof(%s) + 3]" % (i, qt)),
+        }[role]
+    return {
+        "param": ("%s p%d" % (qt, i), [], "p%d[1]" % i),
+        "local": ("void", ["int z%d[2] = {0, 0};" % i, "%s q%d = z%d;" % (qt, i, i)], "100 / q%d[0]" % i),
+        "cast": ("void", ["%s q%d = (%s)0;" % (qt, i, qt)], "*q%d" % i),
+        "sizeof": ("void", [A], "a%d[sizeof(%s)]" % (i, qt)),
+    }[role]
+
+
+def alias_program(placement, how, t, seq):
+    """-> (text unexpanded, text expanded, pairing, use index per unexpanded line) or None if not applicable"""
+    kind = ALIAS_TYPES[t][2]
+    for qual, role in seq:
+        if role not in ROLES[kind] or (placement == "function" and role in ("ptrparam", "param")):
+            return None
+    rows = []       # (line_a | None, line_b | None, use index)
+
+    def both(x, u=-1):
+        rows.append((x, x, u))
+
+    def use_rows(i, qual, role, expanded):
+        qt = alias_use(t, qual, expanded)
+        params, stmts, res = alias_role(t, role, qt, i)
+        if placement == "function":
+            return ["{"] + stmts + ["r += %s;" % res, "}"]
+        return ["%sint f%d(%s)" % ("static " if placement == "class" else "", i, params), "{"] + stmts + \
+               ["return %s;" % res, "}"]
+
+    if placement == "namespace":
+        both("namespace ns {")
+    elif placement == "class":
+        both("struct Reader {")
+    elif placement == "function":
+        both("int host(void)")
+        both("{")
+    rows.append((alias_decl(how, t), None, -1))
+    if placement == "function":
+        both("int r = 0;")
+    for i, (qual, role) in enumerate(seq):
+        for x, y in zip(use_rows(i, qual, role, False), use_rows(i, qual, role, True)):
+            rows.append((x, y, i))
+    if placement == "namespace":
+        both("}")
+    elif placement == "class":
+        both("};")
+    elif placement == "function":
+        both("return r;")
+        both("}")
+    la = [r[0] for r in rows if r[0] is not None]
+    lb = [r[1] for r in rows if r[1] is not None]
+    pairing, useof, ia, ib = [], {}, 0, 0
+    for x, y, u in rows:
+        if x is not None:
+            ia += 1
+            useof[ia] = u
+        if y is not None:
+            ib += 1
+        if x is not None and y is not None:
+            pairing.append((ia, ib))
+    return "\n".join(la) + "\n", "\n".join(lb) + "\n", pairing, useof
+
+
+def alias_programs(nus, lang):
+    """simplest first: 2 uses then 3; the placement / kind / type loops are innermost so that a stride over the
+    enumeration index meets every combination of them."""
+    hows = ("typedef", "using") if lang == "cpp" else ("typedef",)
+    places = PLACEMENTS if lang == "cpp" else ["file", "function"]
+    for nu in nus:
+        for kind in ("base", "ptr"):
+            opts = [(q, r) for r in ROLES[kind] for q in QUALS]
+            for seq in itertools.product(opts, repeat=nu):
+                for placement in places:
+                    for how in hows:
+                        for t in ALIAS_TYPES:
+                            if ALIAS_TYPES[t][2] == kind:
+                                yield placement, how, t, list(seq)
+
+
+def alias_spell(t):
+    base, c, kind = ALIAS_TYPES[t]
+    out = set()
+    for sp in ([base, "const " + base] if kind == "base" else [base, base + " const"]):
+        out.add(sp)
+        out.add(sp.replace(" ", ""))
+    if "unsigned char" in base:
+        out |= set(x.replace("unsigned char", "unsignedchar") for x in out)
+    return sorted(out, key=lambda x: (-len(x), x))
+
+
+def alias_key(placement, how, t, seq, useof, pm, d, where):
+    """violation class: placement, alias kind, aliased type, the use (qualification-role) the difference sits on"""
+    line = None
+    if where == "fact":
+        line = d[2]["at_unexpanded"][0]
+    else:
+        det = d[2]
+        f = det.get("unexpanded") if isinstance(det, dict) else (det if d[0] == "only-in-unexpanded" else None)
+        if f is not None:
+            line = f[5][0][0]
+        else:
+            g = det.get("expanded") if isinstance(det, dict) else det
+            inv = {b: a for a, b in pm.pairing}
+            line = inv.get(g[5][0][0])
+    u = useof.get(line, -1)
+    use = "%s-%s" % seq[u] if u >= 0 else "outside-uses"
+    head = "C06:alias@%s:%s:%s:%s" % (placement, how, t, use)
+    if where == "fact":
+        s = d[1]
+        return head + ":fact:%s" % ("name" if re.match(r"[A-Za-z_]", s) else "number" if re.match(r"[0-9]", s) else s)
+    return head + ":%s:%s" % (d[1], d[0])
+
+
+def work_alias(job):
+    import time
+    items, deadline, lang, knownkeys = job
+    if time.time() > deadline:
+        return None
+    files, meta = {}, []
+    for n, (placement, how, t, seq) in enumerate(items):
+        r = alias_program(placement, how, t, seq)
+        if r is None:
+            continue
+        ta, tb, pairing, useof = r
+        files["g%d_a.%s" % (n, lang)] = ta
+        files["g%d_b.%s" % (n, lang)] = tb
+        meta.append((n, placement, how, t, seq, ta, tb, pairing, useof))
+    out = {"pairs": 0, "pairs_with_findings": 0, "pairs_with_facts": 0, "aligned_fact_tokens": 0, "problems": [],
+           "programs": 0, "ids": collections.Counter(), "samples": [], "kinds": collections.Counter()}
+    if not files:
+        return out
+    by, dumps = cppcheck_files(files, OPTS)
+    if by is None:
+        out["problems"].append(("harness:xml-unparsable", "batch output unparsable", {}))
+        return out
+    confirmed = set(knownkeys)
+    for n, placement, how, t, seq, ta, tb, pairing, useof in meta:
+        na, nb = "g%d_a.%s" % (n, lang), "g%d_b.%s" % (n, lang)
+        pm = PairMap(ta, tb, pairing, 0)
+        spell = alias_spell(t)
+        out["programs"] += 1
+        out["pairs"] += 1
+        out["kinds"]["alias@" + placement] += 1
+        fd = compare_findings(by[na], by[nb], pm, spell, BATCH_WHOLE)
+        nf, vd = compare_facts(dumps[na], dumps[nb], pm)
+
+        def keys_of(fd, vd):
+            ks = [alias_key(placement, how, t, seq, useof, pm, d, "finding") for d in fd]
+            if vd:
+                ks.append(alias_key(placement, how, t, seq, useof, pm, vd[0], "fact"))
+            return ks
+        if fd or vd:
+            if not all(k in confirmed for k in keys_of(fd, vd)):
+                b1, d1 = cppcheck_files({"a." + lang: ta}, OPTS_ISOLATED)
+                b2, d2 = cppcheck_files({"a." + lang: tb}, OPTS_ISOLATED)
+                if b1 is None or b2 is None:
+                    out["problems"].append(("harness:xml-unparsable", "isolated run unparsable", {}))
+                    continue
+                fd = compare_findings(b1["a." + lang], b2["a." + lang], pm, spell)
+                nf2, vd = compare_facts(d1["a." + lang], d2["a." + lang], pm)
+                if not fd and not vd:
+                    out["batch_only"] = out.get("batch_only", 0) + 1
+                confirmed.update(keys_of(fd, vd))
+        ua = [f for f in by[na] if f["locs"] and pm.region_a(f["locs"][0][1]) == "use" and f["id"] not in BATCH_WHOLE]
+        if ua:
+            out["pairs_with_findings"] += 1
+        for f in ua:
+            out["ids"][f["id"]] += 1
+        if nf:
+            out["pairs_with_facts"] += 1
+            out["aligned_fact_tokens"] += nf
+        desc = "%s %s@%s uses=%s" % (how, t, placement, ["%s-%s" % x for x in seq])
+        art = {"placeholders": desc, "uses": ["%s-%s" % x for x in seq], "expanded": "alias", "lang": lang,
+               "spell": spell, "unexpanded_form": ta, "expanded_form": tb, "pairing": pairing}
+        if len(out["samples"]) < 1 and ua and nf:
+            out["samples"].append({"alias": desc, "finding_ids": sorted(set(f["id"] for f in ua)), "tokens_with_facts": nf})
+        seen = set()
+        for d in fd:
+            k = alias_key(placement, how, t, seq, useof, pm, d, "finding")
+            if k not in seen:
+                seen.add(k)
+                a2 = dict(art)
+                a2["differences"] = [list(map(str, x)) for x in fd][:6]
+                out["problems"].append((k, "%s: finding %s %s" % (desc, d[0], d[1]), a2))
+        if vd:
+            k = alias_key(placement, how, t, seq, useof, pm, vd[0], "fact")
+            a2 = dict(art)
+            a2["differences"] = [x[2] for x in vd][:6]
+            out["problems"].append((k, "%s: value facts differ on token '%s'" % (desc, vd[0][1]), a2))
+    return out
+
+
+def work_any(job):
+    return work_alias(job[1]) if job[0] == "alias" else work(job[1])
+
+
 def main(tier, replay=None):
     import multiprocessing
     ctx = Ctx("C06", tier, "exploration", 170 if tier == "quick" else 1700, replay)
@@ -694,15 +961,15 @@ def main(tier, replay=None):
             b1, d1 = cppcheck_files({n: files[n]}, OPTS_ISOLATED)
             by.update(b1)
             dumps.update(d1)
-        pm = PairMap(a["unexpanded_form"], a["expanded_form"])
+        pm = PairMap(a["unexpanded_form"], a["expanded_form"], a.get("pairing"), 0 if a.get("pairing") else None)
         for n in sorted(files, reverse=True):
             print("=== %s  (cppcheck %s %s)\n%s" % (n, " ".join(OPTS_ISOLATED), n, files[n]))
             print("--- findings")
             for f in by[n]:
                 print("   ", run.fshort(f))
         na, nb = "unexpanded." + a["lang"], "expanded." + a["lang"]
-        print("=== expected: equal findings on the using code (below the '%s' line, modulo the line offset) and equal "
-              "Known/Impossible facts on aligned tokens" % MARK)
+        print("=== expected: equal findings on the using code (all lines but the declaration of the expanded entity, modulo "
+              "the line offset) and equal Known/Impossible facts on aligned tokens")
         print("=== observed finding differences:")
         for d in compare_findings(by[na], by[nb], pm, a.get("spell")):
             print("   ", d)
@@ -715,6 +982,24 @@ def main(tier, replay=None):
     jobs = []
     nprog = 0
     knownkeys = [k["key"] for k in ctx.known if k.get("status") == "known"]
+    def alias_jobs(nus, langs, stride):
+        out = []
+        for lang in langs:
+            cur, idx = [], 0
+            for item in alias_programs(nus, lang):
+                if alias_program(*item) is None:
+                    continue
+                idx += 1
+                if idx % stride:
+                    continue
+                cur.append(item)
+                if 2 * len(cur) >= BATCH:
+                    out.append(("alias", (cur, ctx.deadline, lang, knownkeys)))
+                    cur = []
+            if cur:
+                out.append(("alias", (cur, ctx.deadline, lang, knownkeys)))
+        return out
+
     for lang in ("cpp", "c"):
         cur = []
         nf = 0
@@ -727,16 +1012,22 @@ def main(tier, replay=None):
             nf += 2 ** len(S)
             nprog += 1
             if nf >= BATCH:
-                jobs.append((cur, ctx.deadline, lang, knownkeys))
+                jobs.append(("ph", (cur, ctx.deadline, lang, knownkeys)))
                 cur, nf = [], 0
         if cur:
-            jobs.append((cur, ctx.deadline, lang, knownkeys))
+            jobs.append(("ph", (cur, ctx.deadline, lang, knownkeys)))
+    if tier == "quick":     # every 5th two-use alias program (5 is coprime to the sizes of the inner loops)
+        jobs = jobs + alias_jobs((2,), ("cpp",), 5)
+    else:
+        jobs = alias_jobs((2,), ("cpp", "c"), 1) + jobs + alias_jobs((3,), ("cpp", "c"), 1)
+    if os.environ.get("C06_ONLY"):
+        jobs = [j for j in jobs if j[0] == os.environ["C06_ONLY"]]
     lim = int(os.environ.get("C06_LIMIT", "0"))
     if lim:
         jobs = jobs[:lim]
     ids, kinds = collections.Counter(), collections.Counter()
     with multiprocessing.Pool(int(os.environ.get("VERIF_JOBS", "0")) or min(16, os.cpu_count() or 4)) as pool:
-        for res in pool.imap(work, jobs):
+        for res in pool.imap(work_any, jobs):
             if res is None:
                 ctx.capped = True
                 continue
@@ -774,4 +1065,8 @@ def main(tier, replay=None):
              "F id<T> x 5 types, B Box<T> x 5 types) x use lists (<=%d of 7 positions); every program is printed in "
              "all 2^|S| expansion masks and every pair of forms that differs in one expansion is one evaluation "
              "(quick: all |S|=1 programs, every 6th |S|=2 program, C files for |S|=1 only); nontrivial = pairs with "
-             "at least one aligned token carrying a Known/Impossible fact" % (2 if tier == "quick" else 3))
+             "at least one aligned token carrying a Known/Impossible fact.  Second grammar: ONE alias (typedef/using of "
+             "unsigned char, int, const unsigned char, const int, const int *, int * const) declared at file / namespace / "
+             "class / function scope and used 2 (quick: every 5th program; thorough: all, then 3) times in sequence, each "
+             "use plain / 'const T' / 'T const' as read-only pointer parameter, local pointer, local, cast or sizeof; the "
+             "expanded form writes the type with a single const" % (2 if tier == "quick" else 3))
